@@ -204,8 +204,15 @@ def run_cli(argv, capture_stdout=True, stale=True):
     sys.stderr = err
     try:
         try:
-            gm.main([str(a) for a in argv])
-            res = Outcome("ok", 0)
+            rv = gm.main([str(a) for a in argv])
+            # the installed command is the console-script launcher `sys.exit(main())`: whatever main()
+            # returns becomes the exit status (None -> 0, an int -> that status, anything else -> 1)
+            if rv is None or rv == 0:
+                res = Outcome("ok", 0)
+            else:
+                errs = [m for lv, m in lh.records if lv in ("ERROR", "CRITICAL")]
+                res = Outcome("reported", rv if isinstance(rv, int) else 1,
+                              f"main() returned {rv!r} (exit status of the installed command)" + (": " + errs[-1] if errs else ""))
         except SystemExit as e:
             code = e.code
             if code is None or code == 0:
